@@ -371,4 +371,74 @@ def decodeWithoutBomHandlingAndWithoutReplacementCap (v : Gen.Variant) (bytes : 
       | .malformed _ _ => .ok (.ret none)
       | .outputFull => .ok .unreachable
 
+/-! ## Part 3: `Encoding::encode`
+
+A `&str` is the list of its UTF-8 bytes; `Utf8Source` reads it as `Model.items8` does.
+`output_encoding == UTF_8` / `== ISO_2022_JP` are tests on the variant of the output encoding
+(`Thm.C11.variant_identifies`).  The `Vec` is tracked by `capacity()` and `len()`:
+`encode_from_utf8_to_vec` offers `capacity - len` bytes to `encode_from_utf8` (`Model.encRepl`, whose
+control flow depends on that number through `NCR_EXTRA`). -/
+
+structure EncRes where
+  bytes : List Nat
+  hadUnmappables : Bool
+  /-- `Cow::Borrowed` (then the slice is the argument's own bytes) -/
+  borrowed : Bool
+deriving DecidableEq, Repr
+
+open EncodingRs.Gen.MaxLen in
+/-- The `loop` of `encode`.  One round is one `encoder.encode_from_utf8_to_vec(&string[total_read..], &mut vec, true)`
+with the stop budgets `bs.head` of its inner raw calls.  On `OutputFull`:
+`needed = max_buffer_length_from_utf8_if_no_unmappables(string.len() - total_read)`,
+`rounded = checked_add(vec.capacity(), needed).unwrap().next_power_of_two()`,
+`vec.reserve_exact(rounded - vec.len())`. -/
+def encodeLoop (v : Gen.Variant) (ifuel : Nat) :
+    Nat → (efamOfVariant v).σ → List Nat → Nat → Nat → List Nat → List (List Budget) → Outcome (List Nat × Bool)
+  | 0, _, _, _, _, _, _ => .diverges
+  | fuel + 1, s, src, cap, len, slack, bs =>
+    match encRepl (efamOfVariant v) (canEncodeEverything v) Gen.ncrExtra false true (cap - len) ifuel s src
+        (bs.headD []) with
+    | none => .diverges
+    | some t =>
+      match t.res with
+      | .inputEmpty => .ok (t.out, t.hadUnmappables)
+      | .outputFull =>
+        match U.addO cap (encMaxIfNoUnmappables false v (src.length - t.read)) with
+        | none => .panic                                    -- `checked_add(vec.capacity(), needed).unwrap()`
+        | some sum =>
+          let rounded := nextPowerOfTwoU sum
+          let len' := len + t.out.length
+          -- `rounded - vec.len()` underflows only if `next_power_of_two` wrapped to 0: debug panic /
+          -- release: `reserve_exact` of an absurd amount panics with "capacity overflow"
+          if rounded < len' then .panic else
+          match encodeLoop v ifuel fuel t.st (src.drop t.read) (max cap rounded + slack.headD 0) len'
+              slack.tail bs.tail with
+          | .ok (o, e) => .ok (t.out ++ o, t.hadUnmappables || e)
+          | .panic => .panic
+          | .diverges => .diverges
+      | .unmappable _ => .diverges  -- `CoderResult` has no such variant
+
+open EncodingRs.Gen.MaxLen in
+/-- `Encoding::encode`, given the variant `vo` of `self.output_encoding()` -/
+def encodeV (vo : Gen.Variant) (bytes : List Nat) (fuel : Nat) (slack : List Nat) (bs : List (List Budget)) :
+    Outcome EncRes :=
+  if vo = .utf8 then .ok ⟨bytes, false, true⟩                 -- `Cow::Borrowed(string.as_bytes())`
+  else
+    let n := validUpToNoRepl vo bytes                         -- ISO-2022-JP: its validator, else ASCII
+    if n = bytes.length then .ok ⟨bytes, false, true⟩
+    else
+      match U.addO n (encMaxIfNoUnmappables false vo (bytes.length - n)) with
+      | none => .panic                                        -- `checked_add(…).unwrap()`
+      | some c0 =>
+        -- `Vec::with_capacity(c0.next_power_of_two())`, `extend_from_slice(&bytes[..valid_up_to])`
+        (encodeLoop vo fuel fuel (efamOfVariant vo).init (bytes.drop n)
+            (nextPowerOfTwoU c0 + slack.headD 0) n slack.tail bs).map
+          fun (o, e) => ⟨bytes.take n ++ o, e, false⟩
+
+/-- `Encoding::encode` of the encoding with index `i` in `Gen.encodings`: the result and the index of
+the encoding reported as used (`output_encoding`) -/
+def encode (i : Nat) (bytes : List Nat) (fuel : Nat) (slack : List Nat) (bs : List (List Budget)) :
+    Outcome (EncRes × Nat) :=
+  (encodeV (Meta.variantAt (Meta.outputEncoding i)) bytes fuel slack bs).map fun r => (r, Meta.outputEncoding i)
+
 end EncodingRs.Model.OneShot
